@@ -42,6 +42,17 @@ func worldC20(w *World) {
 	workLat := []time.Duration{0, time.Second, 5 * time.Second, 20 * time.Second}[t.Choice(4, "worklat")]
 	listDelay := []time.Duration{0, time.Second, 4 * time.Second}[t.Choice(3, "listdelay")]
 	respSize := []int{10, 5000, 200 << 10}[t.Choice(3, "respsize")]
+	// the signal may also come at a fixed time after start-up (possibly while the agent
+	// is still waiting for the backend to become healthy)
+	sigEarly := time.Duration(-1)
+	if t.Rare(1, 4, "sigearly?") {
+		sigEarly = []time.Duration{100 * time.Millisecond, 1500 * time.Millisecond, 3500 * time.Millisecond, 7 * time.Second}[t.Choice(4, "sigearly")]
+	}
+	// the pending-list endpoint may start failing (from the n-th call on)
+	listFailFrom := -1
+	if t.Rare(1, 4, "listfails?") {
+		listFailFrom = t.Range(1, 4, "listfailfrom")
+	}
 
 	fp := NewFakeProxy(w)
 	fp.AddRequest("req1", serialiseRequest("GET", "/work", "example.test", http.Header{}, nil), "")
@@ -53,6 +64,10 @@ func worldC20(w *World) {
 		if n == 0 {
 			time.Sleep(listDelay)
 			return 200, jsonList([]string{"req1"})
+		}
+		if listFailFrom >= 0 && n >= listFailFrom {
+			w.K.Count("fault.list_5xx")
+			return 503, []byte("injected")
 		}
 		// later polls: long-poll for a while, sometimes listing nothing new
 		time.Sleep([]time.Duration{3 * time.Second, 30 * time.Second, 8 * time.Second}[n%3])
@@ -117,7 +132,14 @@ func worldC20(w *World) {
 	var sigAt time.Duration = -1
 	var sigSeq uint64
 	w.K.Spawn("controller", func() {
-		if signal {
+		if signal && sigEarly >= 0 {
+			time.Sleep(sigEarly)
+			mu.Lock()
+			sigAt = w.K.Now()
+			sigSeq = w.K.Seq()
+			mu.Unlock()
+			w.K.Signal("agenthost", sig)
+		} else if signal {
 			select {
 			case <-firstList:
 				time.Sleep(sigDelay)
@@ -134,7 +156,7 @@ func worldC20(w *World) {
 		w.K.Stop()
 	})
 	w.K.Horizon = 30 * time.Minute
-	w.Sample = map[string]interface{}{"health": healthOn, "interval_s": interval, "threshold": threshold, "start_fails": nStartFail, "up_late": upLate.String(), "periodic": boolString(periodic), "signal": signal, "sig": sig.String(), "grace": grace.String(), "sig_delay": sigDelay.String(), "work_latency": workLat.String()}
+	w.Sample = map[string]interface{}{"health": healthOn, "interval_s": interval, "threshold": threshold, "start_fails": nStartFail, "up_late": upLate.String(), "periodic": boolString(periodic), "signal": signal, "sig": sig.String(), "grace": grace.String(), "sig_delay": sigDelay.String(), "sig_at_fixed_time": sigEarly.String(), "list_fails_from": listFailFrom, "work_latency": workLat.String()}
 	// tolerance for "exits when ...": the statement fixes the instants, not sub-second details
 	const eps = 300 * time.Millisecond
 	w.OnCheck(func() {
@@ -189,6 +211,16 @@ func worldC20(w *World) {
 		if sigAt >= 0 {
 			expSignal = sigAt + grace
 		}
+		// a signal that arrives before the agent asked for work at all (still gated, or
+		// just starting): the statement only says that the agent exits - at the latest
+		// when the period ends
+		beforeWork := sigAt >= 0 && (len(calls) == 0 || sigSeq < calls[0].Seq)
+		if beforeWork && healthOn && (firstPass < 0 || sigAt < firstPass) {
+			w.Probe("signal_while_health_gated")
+		}
+		if listFailFrom >= 0 && sigAt >= 0 && grace > 0 && len(calls) > listFailFrom {
+			w.Probe("signal_while_list_calls_fail")
+		}
 		switch {
 		case expUnhealthy >= 0 && (expSignal < 0 || expUnhealthy < expSignal-eps):
 			w.Probe("unhealthy_exit_expected")
@@ -205,6 +237,10 @@ func worldC20(w *World) {
 			}
 			if agentExit == nil {
 				w.Violation("shutdown", "signal at %v (grace %v) but the agent never exited", sigAt, grace)
+			} else if beforeWork && grace > 0 {
+				if agentExit.At < sigAt-eps || agentExit.At > expSignal+eps {
+					w.Violation("shutdown", "signal at %v (before the agent had asked for work) with grace %v: agent exited at %v (%q), expected between the signal and %v", sigAt, grace, agentExit.At, agentExit.Msg, expSignal)
+				}
 			} else if agentExit.At < expSignal-eps || agentExit.At > expSignal+eps {
 				w.Violation("shutdown", "signal at %v with grace %v: agent exited at %v (%q), expected at %v", sigAt, grace, agentExit.At, agentExit.Msg, expSignal)
 			}
